@@ -557,9 +557,80 @@ def run(c):
     for _ in range(2000 if c.thorough else 400):
         parse_lines.append(rng.choice(["rpcextra.xread ", "rpcextra.yread "]) + hx(rng.bytes(rng.below(48))))
     c.tie("malformed", parse_lines, impl, model)
+
+    # ------------------------------------------------------------ phase 4: end-to-end loopback (exploration)
+    # a real rpc.Server and rpc.Client over TCP on 127.0.0.1: client Request.Extra vs HandlerContext.RequestExtra,
+    # handler ResponseExtra / error vs client Response.Extra / error
+    lines4 = []
+    meta4 = {}
+    for _ in range(12000 if c.thorough else 1500):
+        tl2 = rng.chance(1, 2)
+        e = g.reqextra()
+        k = rng.below(12)
+        if k >= 2:
+            e["flags"] &= ~(1 << 7) & (M32 - 1)           # no_result requests are refused by the client
+        if k >= 1:
+            # timeouts that cannot fire during the run; a few explicit zeros and stale/negative values
+            kk = rng.below(12)
+            if kk == 0:
+                e["flags"] |= 1 << 23
+                e["ct"] = 0
+            elif kk == 1:
+                e["ct"] = rng.choice([2**31, 2**32 - 1, rng.range(2**31, 2**32 - 1)])
+            elif bit(e["flags"], 23):
+                e["ct"] = rng.choice([600000, 2**31 - 1, rng.range(600000, 2**31 - 1)])
+            elif kk != 2:
+                e["ct"] = 0
+        actor = rng.choice([0, 0, 1, g.u64(), g.u64()])
+        body = g.body(REQ_WRAPPERS, tl2)
+        if len(body) < 4 or first_word(body) in REQ_WRAPPERS:
+            body = b"\x01\x02\x03\x04" + body
+        err = rand_err()
+        rbody = g.body(RESP_MAGIC, tl2)
+        if not tl2 and (len(rbody) < 4 or first_word(rbody) in RESP_MAGIC):
+            rbody = b"\x05\x06\x07\x08" + rbody
+        re_ = g.resextra()
+        ln = "rpcextra.e2e %d %d %s %s %s %s %s" % (actor, 1 if tl2 else 0, hx(body), w_reqextra(e), err_word(err), hx(rbody), w_resextra(re_))
+        lines4.append(ln)
+        meta4[ln] = (actor, tl2, body, e, err, rbody, re_)
+    res4 = c.tie("loopback", lines4, impl, model)
+    for l, a, _ in res4:
+        actor, tl2, body, e, err, rbody, re_ = meta4[l]
+        ct = e["ct"]
+        refused = bit(e["flags"], 7) or (not bit(e["flags"], 23) and ct != 0) or ct >= 2**31
+        if refused:
+            if a != "refused":
+                c.oracle_fail(l, "client sent a request it documents as unsupported/invalid (got %s)" % a[:60], l)
+            continue
+        if a == "e2e-unavailable":
+            c.count("loopback:unavailable")
+            continue
+        e2 = dict(e)
+        if bit(e["flags"], 23) and ct == 0:
+            e2["flags"] = e["flags"] & ~(1 << 23)   # documented normalisation: explicit infinite timeout is not sent
+        ne = norm_reqextra(e2)
+        to = str(ne["ct"]) if 0 < ne["ct"] < 2**31 else "d"
+        tag = first_word(body)
+        exp_srv = "%d %d %d 0 %d %s %s %s" % (actor, 1 if tl2 else 0, tag, e2["flags"], to, hx(body), w_reqextra(ne))
+        nr = norm_resextra(re_, e2["flags"])
+        if err is None:
+            outcome, rest = "ok", rbody
+        else:
+            rest = b""
+            if err[0] == "n":
+                outcome = "e:%d:%s" % (ERR_NO_HANDLER, sx(b"RPC handler for #%08x not found" % tag))
+            elif err[0] == "o":
+                outcome = "e:%d:%s" % (ERR_UNKNOWN, sx(err[1]))
+            else:
+                outcome = "e:%d:%s" % (err[1] if err[1] != 0 else ERR_UNKNOWN, sx(err[2]))
+        exp = "ok %s | %s %s %s" % (exp_srv, hx(rest), outcome, w_resextra(nr))
+        if a != exp:
+            side = "server" if a.split(" | ")[0] != exp.split(" | ")[0] else "client"
+            c.oracle_fail(l, "end-to-end: what arrives at the %s differs from what the other side set" % side, l)
     c.extra["rule"] = ("request lines: all/sampled combinations of the 13 value-carrying request mask bits, random extras (3/5 mask-consistent, "
                        "2/5 with stale values under clear bits), boundary ints/strings/dictionaries with duplicate and unsorted keys, both body "
                        "formats, actor 0/non-0, bodies incl. too short and wrapper-tag-prefixed; response lines: all 512 combinations of the "
                        "9 response mask bits x both formats, random request masks, nil/rpc.Error(code 0 too)/wrapped/ErrNoHandler/other errors; "
                        "malformed: truncations, bit flips, inserted tags, duplicated wrappers, random bytes for the four parsers; "
+                       "loopback: random calls through a real rpc.Server/rpc.Client pair over TCP 127.0.0.1 (timeouts that cannot fire); "
                        "distinct = distinct line text; every line is a different input")
